@@ -100,6 +100,38 @@ def main():
     for k in range(300 if thorough else 60):
         nm, p, f, meta = enginegen.stmt_case(ck.rng, 4 + 8 * k)   # lock(x) ... unlock(x)
         pairs.append(("p.patch", p, "a.go", f)); names.append(nm); metas.append(meta)
+    # ---- several changes in one patch: each change has its own metavariable table
+    MULTI = [
+        ("same-name", "@ fix @\nvar x expression\n@@\n-foo(x)\n+foo2(x)\n\n@ fix @\nvar y expression\n@@\n-baz(x, y)\n+baz2(x, y)\n",
+         ["baz(x, 2)", "baz(1, y)", "foo(3)", "baz(x, y)", "baz(q, 2)"]),
+        ("same-name-kinds", "@ r @\nvar f identifier\n@@\n-f(marker)\n+f(marker2)\n\n@ r @\nvar f expression\n@@\n-call(f)\n+called(f)\n",
+         ["alpha(marker)", "call(a.b)", "call(g(1))", "pkg.fn(marker)", "call(z)"]),
+        ("leak-to-later", "@@\nvar log identifier\n@@\n-use(log)\n+use2(log)\n\n@@\n@@\n-log(1)\n+logged(1)\n",
+         ["log(1)", "other(1)", "use(a)", "zlog(1)", "use(log)"]),
+        ("leak-expr", "@@\nvar v expression\n@@\n-wrap(v)\n+wrapped(v)\n\n@@\nvar w expression\n@@\n-pair(v, w)\n+paired(w)\n",
+         ["pair(v, 1)", "pair(u, 2)", "wrap(3)", "pair(v, v)", "pair(a.b, c)"]),
+        ("shadow-later", "@@\nvar x expression\n@@\n-one(x)\n+uno(x)\n\n@@\nvar x identifier\n@@\n-two(x)\n+dos(x)\n",
+         ["one(a + b)", "two(a + b)", "two(c)", "one(d)", "two(e.f)"]),
+    ]
+    for nm, ptxt, stm in MULTI:
+        for rep in range(3 if thorough else 2):
+            st = stm[:]; ck.rng.shuffle(st)
+            src = "package p\n\nfunc h() {\n\t" + "\n\t".join(st) + "\n}\n"
+            pairs.append(("p.patch", ptxt.encode(), "a.go", src.encode())); names.append("multi:" + nm); metas.append({"family": "multi:" + nm})
+    # ---- a metavariable before and after two or more elisions: every way of cutting the list must be tried under every binding
+    import itertools
+    SW = [("x-2dots", "var x expression", "f(..., x, ..., x)", "g(x)"), ("xy-3dots", "var x, y expression", "f(..., x, ..., y, ..., x)", "g(x, y)"),
+          ("x-c-3dots", "var x expression", "f(..., x, ..., c, ..., x)", "g(x)"), ("x-head", "var x expression", "f(x, ..., x, ...)", "g(x)")]
+    lists = [list(l) for n_ in range(0, 6) for l in itertools.product(["a", "b", "c"], repeat=n_)]
+    lists = lists if thorough else [l for k, l in enumerate(lists) if len(l) <= 4 or k % 4 == 0]
+    for nm, mt, mi, pl in SW:
+        src = "package p\n\nfunc h() {\n" + "\n".join("\t_ = f(%s)" % ", ".join(l) for l in lists) + "\n}\n"
+        pairs.append(("p.patch", ("@@\n%s\n@@\n-%s\n+%s\n" % (mt, mi, pl)).encode(), "a.go", src.encode())); names.append("dots-sweep:" + nm); metas.append({"family": "dots-sweep"})
+    blocks = [list(l) for n_ in range(2, 6) for l in itertools.product(["use(a)", "use(b)", "mid()", "other()"], repeat=n_)]
+    blocks = blocks if thorough else blocks[::5]
+    src = "package p\n\n" + "\n".join("func h%d() {\n\t%s\n}\n" % (j, "\n\t".join(bl)) for j, bl in enumerate(blocks))
+    pairs.append(("p.patch", b"@@\nvar y expression\n@@\n ...\n use(y)\n ...\n mid()\n ...\n-use(y)\n+done(y)\n", "a.go", src.encode()))
+    names.append("dots-sweep:stmts"); metas.append({"family": "dots-sweep"})
     res = enginecorr.run(pairs)
     for name, pair, o, meta in zip(names, pairs, res, metas):
         ck.count((pair[1], pair[3]), nontrivial=not o["skipped"])
